@@ -3,3 +3,4 @@ import Spec.MatchDomain
 import Spec.MatchClasses
 import Spec.StoreInv
 import Spec.Ttl
+import Spec.Unique
